@@ -240,4 +240,332 @@ theorem copyGuards_ok {self dst src : View} {cnt doff soff : Int} {bytes dOff sO
   obtain ⟨rfl, rfl, rfl⟩ := h
   refine ⟨?_, ?_, ?_, ?_, ?_⟩ <;> omega
 
+/-! ### every operation preserves the invariant -/
+
+theorem view?_some {s : State} {x : Nat} {p : View} (h : view? s x = some p) :
+    ∃ m, s.vars x = some m ∧ s.mems[m]? = some p := by
+  unfold view? at h
+  cases hv : s.vars x with
+  | none => rw [hv] at h; cases h
+  | some m => rw [hv] at h; exact ⟨m, rfl, h⟩
+
+theorem Inv.viewOk {s : State} (h : Inv s) {x : Nat} {p : View} (hp : view? s x = some p) : ViewOk s p := by
+  obtain ⟨m, _, hm⟩ := view?_some hp
+  exact h.views _ _ hm
+
+/-- the value of a memory-typed expression is acceptable: the state it leaves satisfies the
+    invariant and the returned pointer exists -/
+def MRes.Good : MRes → Prop
+  | .val s m => Inv s ∧ ∀ m', m = some m' → m' < s.mems.length
+  | _ => True
+
+theorem assignTo_inv {s0 : State} (h0 : Inv s0) (d : Nat) {r : MRes} (hr : r.Good) : Inv (assignTo s0 d r).1 := by
+  cases r with
+  | val s m => exact hr.1.setVar d m hr.2
+  | err e => exact h0
+  | trap => exact h0
+
+theorem pushMem_good {s : State} (h : Inv s) {v : View} (hv : ViewOk s v) :
+    (MRes.val (pushMem s v) (some s.mems.length)).Good := by
+  refine ⟨h.pushMem hv, ?_⟩
+  intro m' hm; cases hm
+  simp [pushMem]
+
+theorem sliceView_viewOk {s : State} {p v : View} {off cnt : Int} (hp : ViewOk s p)
+    (h : sliceView p off cnt = .ok v) : ViewOk s v := by
+  obtain ⟨hb, _, _, _, hin, _⟩ := sliceView_ok h
+  obtain ⟨b, h1, h2⟩ := hp
+  exact ⟨b, by rw [hb]; exact h1, by omega⟩
+
+theorem sliceExpr_good {s : State} (h : Inv s) (src : Nat) (off cnt : Int) : (sliceExpr s src off cnt).Good := by
+  unfold sliceExpr
+  split
+  · exact ⟨h, fun _ hm => by cases hm⟩
+  · rename_i p hp
+    split
+    · trivial
+    · rename_i v hv
+      exact pushMem_good h (sliceView_viewOk (h.viewOk hp) hv)
+
+theorem castExpr_good {s : State} (h : Inv s) (src e : Nat) : (castExpr s src e).Good := by
+  unfold castExpr
+  split
+  · trivial
+  · rename_i p hp
+    split
+    · trivial
+    · rename_i v hv
+      have := sliceView_viewOk (h.viewOk hp) hv
+      exact pushMem_good h (v := { v with esz := e }) this
+
+theorem mallocExpr_good {s : State} (h : Inv s) (n : Int) (e : Nat) (data : Option (List UInt8)) :
+    (mallocExpr s n e data).Good := by
+  unfold mallocExpr
+  split
+  · exact ⟨h, fun _ hm => by cases hm⟩
+  · simp only []
+    split
+    · trivial
+    · have key : ∀ nb : Buffer, nb.length = (n * (e : Int)).toNat →
+          (MRes.val { pushMem s { buf := s.bufs.length, off := 0, size := (n * (e : Int)).toNat, esz := e } with
+              bufs := s.bufs ++ [nb] } (some s.mems.length)).Good := by
+        intro nb hnb
+        have h1 : Inv { s with bufs := s.bufs ++ [nb] } := h.pushBuf nb
+        have h2 := pushMem_good h1 (v := { buf := s.bufs.length, off := 0, size := (n * (e : Int)).toNat, esz := e })
+          ⟨nb, by simp, by simp [hnb]⟩
+        exact h2
+      split
+      · exact key _ (by simp)
+      · split
+        · trivial
+        · rename_i dt hlen
+          exact key _ (by simp only [List.length_map, List.length_take]; omega)
+
+theorem wrapExpr_good {s : State} (h : Inv s) (hb : Nat) (n : Int) (e : Nat) : (wrapExpr s hb n e).Good := by
+  unfold wrapExpr
+  simp only []
+  split
+  · trivial
+  · split
+    · trivial
+    · rename_i h1 h2
+      simp only [Decidable.not_not] at h2
+      obtain ⟨b, hb1, hb2⟩ := h.host hb h2.1
+      exact pushMem_good h ⟨b, hb1, by simp only []; omega⟩
+
+theorem copyBytes_eq {s : State} {dst src : View} {db sb : Buffer} (hd : s.bufs[dst.buf]? = some db)
+    (hs : s.bufs[src.buf]? = some sb) (bytes dOff sOff : Nat) :
+    copyBytes s dst src bytes dOff sOff =
+      (setBuf s dst.buf (writeAt db (dst.off + dOff) (readAt sb (src.off + sOff) bytes)), .ok none) := by
+  unfold copyBytes
+  rw [hs, hd]
+
+theorem copyBytes_inv {s : State} (h : Inv s) {dst src : View} (hd : ViewOk s dst) (hs : ViewOk s src)
+    {bytes dOff sOff : Nat} (h1 : sOff + bytes ≤ src.size) (h2 : dOff + bytes ≤ dst.size) :
+    Inv (copyBytes s dst src bytes dOff sOff).1 ∧ (copyBytes s dst src bytes dOff sOff).2 = .ok none ∧
+      (copyBytes s dst src bytes dOff sOff).1.mems = s.mems := by
+  obtain ⟨db, hd1, hd2⟩ := hd
+  obtain ⟨sb, hs1, hs2⟩ := hs
+  rw [copyBytes_eq hd1 hs1]
+  have hr : (readAt sb (src.off + sOff) bytes).length = bytes := readAt_length (by omega)
+  exact ⟨h.setBuf hd1 (writeAt_length (by rw [hr]; omega)), rfl, rfl⟩
+
+/-- the fresh root view of an allocation of `n` elements of size `e` -/
+def rootView (s : State) (n : Int) (e : Nat) : View :=
+  { buf := s.bufs.length, off := 0, size := (n * (e : Int)).toNat, esz := e }
+
+/-- shape of a successful non-empty `device::malloc` -/
+theorem mallocExpr_val {s s1 : State} {n : Int} {e m : Nat} {data : Option (List UInt8)}
+    (h : mallocExpr s n e data = .val s1 (some m)) :
+    n ≠ 0 ∧ 0 ≤ n * (e : Int) ∧ m = s.mems.length ∧
+      ∃ nb : Buffer, nb.length = (n * (e : Int)).toNat ∧
+        (nb = match data with
+              | none => List.replicate (n * (e : Int)).toNat none
+              | some dt => (dt.take (n * (e : Int)).toNat).map some) ∧
+        s1 = { pushMem s (rootView s n e) with bufs := s.bufs ++ [nb] } := by
+  unfold mallocExpr at h
+  by_cases h0 : n = 0
+  · rw [if_pos h0] at h; cases h
+  rw [if_neg h0] at h
+  simp only [] at h
+  by_cases h1 : n * (e : Int) ≥ 0
+  case neg => rw [if_pos h1] at h; cases h
+  rw [if_neg (not_not_intro h1)] at h
+  cases data with
+  | none =>
+    simp only [MRes.val.injEq, Option.some.injEq] at h
+    exact ⟨h0, h1, h.2.symm, _, by simp, rfl, h.1.symm⟩
+  | some dt =>
+    simp only [] at h
+    by_cases h2 : dt.length < (n * (e : Int)).toNat
+    · rw [if_pos h2] at h; cases h
+    rw [if_neg h2] at h
+    simp only [MRes.val.injEq, Option.some.injEq] at h
+    exact ⟨h0, h1, h.2.symm, _, by simp only [List.length_map, List.length_take]; omega, rfl, h.1.symm⟩
+
+theorem mallocExpr_val_none {s s1 : State} {n : Int} {e : Nat} {data : Option (List UInt8)}
+    (h : mallocExpr s n e data = .val s1 none) : s1 = s := by
+  unfold mallocExpr at h
+  by_cases h0 : n = 0
+  · rw [if_pos h0] at h; cases h; rfl
+  rw [if_neg h0] at h
+  simp only [] at h
+  by_cases h1 : n * (e : Int) ≥ 0
+  case neg => rw [if_pos h1] at h; cases h
+  rw [if_neg (not_not_intro h1)] at h
+  cases data with
+  | none => simp at h
+  | some dt =>
+    simp only [] at h
+    by_cases h2 : dt.length < (n * (e : Int)).toNat
+    · rw [if_pos h2] at h; cases h
+    · rw [if_neg h2] at h; simp at h
+
+theorem mallocFromExpr_good {s : State} (h : Inv s) (n : Int) (e src : Nat) : (mallocFromExpr s n e src).Good := by
+  unfold mallocFromExpr
+  have hg := mallocExpr_good h n e none
+  cases hme : mallocExpr s n e none with
+  | err er => trivial
+  | trap => trivial
+  | val s1 om =>
+    rw [hme] at hg
+    cases om with
+    | none => exact hg
+    | some m =>
+      simp only []
+      obtain ⟨_, _, hm, nb, hnb, _, hs1⟩ := mallocExpr_val hme
+      have hle : BufLe s s1 := by rw [hs1]; exact bufLe_pushBuf s nb
+      cases hsv : view? s src with
+      | none => exact hg
+      | some sv =>
+        cases hdv : s1.mems[m]? with
+        | none => exact hg
+        | some dv =>
+          simp only []
+          split
+          · exact hg
+          · cases hcg : copyGuards dv dv sv (-1) 0 0 with
+            | error er => trivial
+            | ok t =>
+              obtain ⟨bytes, dOff, sOff⟩ := t
+              simp only []
+              obtain ⟨_, _, _, g1, g2⟩ := copyGuards_ok hcg
+              have hc := copyBytes_inv hg.1 (hg.1.views _ _ hdv) ((h.viewOk hsv).mono hle) g1 g2
+              cases hcb : copyBytes s1 dv sv bytes dOff sOff with
+              | mk s2 r =>
+                rw [hcb] at hc
+                cases r with
+                | ok o =>
+                  refine ⟨hc.1, ?_⟩
+                  intro m' hm'; cases hm'
+                  rw [hc.2.2]; exact hg.2 _ rfl
+                | err er => trivial
+                | trap => trivial
+
+theorem cloneExpr_good {s : State} (h : Inv s) (src : Nat) : (cloneExpr s src).Good := by
+  unfold cloneExpr
+  split
+  · exact ⟨h, fun _ hm => by cases hm⟩
+  · rename_i p hp
+    split
+    · exact ⟨h, fun _ hm => by cases hm⟩
+    · have hg := mallocFromExpr_good h (p.size : Int) 1 src
+      cases hmf : mallocFromExpr s (p.size : Int) 1 src with
+      | err er => trivial
+      | trap => trivial
+      | val s1 om =>
+        rw [hmf] at hg
+        cases om with
+        | none => trivial
+        | some m =>
+          simp only []
+          cases hc : s1.mems[m]? with
+          | none => trivial
+          | some c =>
+            simp only []
+            refine ⟨hg.1.setEsz hc p.esz, ?_⟩
+            intro m' hm'; cases hm'
+            simp only [List.length_set]; exact hg.2 _ rfl
+
+theorem step_inv {s : State} (h : Inv s) (op : Op) : Inv (step s op).1 := by
+  cases op with
+  | malloc v n e data => exact assignTo_inv h v (mallocExpr_good h n e data)
+  | mallocFrom v n e src => exact assignTo_inv h v (mallocFromExpr_good h n e src)
+  | wrap v hb n e => exact assignTo_inv h v (wrapExpr_good h hb n e)
+  | slice d src off cnt => exact assignTo_inv h d (sliceExpr_good h src off cnt)
+  | cast d src e => exact assignTo_inv h d (castExpr_good h src e)
+  | clone d src => exact assignTo_inv h d (cloneExpr_good h src)
+  | setDtype v e =>
+    simp only [step, doSetDtype]
+    split
+    · exact h
+    · split
+      · exact h
+      · rename_i p hp; exact h.setEsz hp e
+  | copyFromHost v data cnt off =>
+    simp only [step, doCopyFromHost]
+    split
+    · exact h
+    · rename_i p hp
+      split
+      · exact h
+      split
+      · exact h
+      split
+      · exact h
+      split
+      · exact h
+      rename_i h1 h2 h3 h4
+      obtain ⟨b, hb1, hb2⟩ := h.viewOk hp
+      rw [hb1]
+      simp only [Decidable.not_not, udimLe, Bool.and_eq_true, decide_eq_true_eq] at h1 h2 h3
+      have hb := countBytes_nonneg h1
+      refine h.setBuf hb1 (writeAt_length ?_)
+      simp only [List.length_map, List.length_take]
+      omega
+  | copyToHost v cap cnt off =>
+    simp only [step, doCopyToHost]
+    split
+    · exact h
+    · split
+      · exact h
+      split
+      · exact h
+      split
+      · exact h
+      split
+      · exact h
+      split <;> exact h
+  | copyFromMem d src cnt doff soff =>
+    simp only [step, doCopyFromMem]
+    split
+    · exact h
+    · exact h
+    · exact h
+    · rename_i dv sv hd hs
+      split
+      · exact h
+      · rename_i bytes dOff sOff hcg
+        obtain ⟨_, _, _, g1, g2⟩ := copyGuards_ok hcg
+        exact (copyBytes_inv h (h.viewOk hd) (h.viewOk hs) g1 g2).1
+  | copyToMem src d cnt doff soff =>
+    simp only [step, doCopyToMem]
+    split
+    · exact h
+    · exact h
+    · exact h
+    · rename_i sv dv hs hd
+      split
+      · exact h
+      · rename_i bytes dOff sOff hcg
+        obtain ⟨_, _, _, g1, g2⟩ := copyGuards_ok hcg
+        exact (copyBytes_inv h (h.viewOk hd) (h.viewOk hs) g1 g2).1
+  | assign d src =>
+    simp only [step, doAssign]
+    exact h.setVar d _ (fun m' hm => h.vars _ _ hm)
+  | free v =>
+    simp only [step, doFree]
+    split
+    · exact h
+    · exact h.free _
+  | hostWrite hb off data =>
+    simp only [step, doHostWrite]
+    split
+    · rename_i b hb1
+      split
+      · rename_i hc
+        exact h.setBuf hb1 (writeAt_length (by simp only [List.length_map]; omega))
+      · exact h
+    · exact h
+  | hostRead hb off n =>
+    simp only [step, doHostRead]
+    split
+    · split <;> exact h
+    · exact h
+
+theorem run_inv {s : State} (h : Inv s) (ops : List Op) : Inv (run s ops) := by
+  induction ops generalizing s with
+  | nil => exact h
+  | cons op rest ih => exact ih (step_inv h op)
+
 end Occa.Mem
